@@ -463,6 +463,60 @@ theorem wsgi_content_length (app : App) (s : Slots) (r : Req) (n : Nat)
   | raised => simp only [catchAll] at hcl; cases hcl
   | diverged => simp only [catchAll] at hcl; cases hcl
 
+/-- the per-status blacklist withholds `Content-Length` only for 304 -/
+theorem content_length_kept (code : Nat) (h : code ≠ 304) :
+    (badHeadersFor code).contains (titleAscii "Content-Length".toList) = false := by
+  unfold badHeadersFor
+  have ht : titleAscii "Content-Length".toList = "Content-Length".toList := by decide
+  rw [ht]
+  -- the extracted table has two rows
+  have hrows : Gen.wsgiBadHeaders.map (·.1) = [204, 304] := by decide
+  by_cases h204 : code = 204
+  · subst h204; decide
+  · have : Gen.wsgiBadHeaders.find? (·.1 == code) = none := by
+      rw [List.find?_eq_none]
+      intro x hx
+      have : x.1 ∈ Gen.wsgiBadHeaders.map (·.1) := List.mem_map_of_mem hx
+      rw [hrows] at this
+      simp only [List.mem_cons, List.not_mem_nil, or_false] at this
+      simp only [beq_iff_eq]
+      rcases this with h1 | h1 <;> omega
+    rw [this]; rfl
+
+/-- (d), emitted form: when the framework set `Content-Length` itself and the status is not 304
+(whose header blacklist withholds it), the header list handed to `start_response` contains
+`('Content-Length', str(n))` with `n` the value of `wsgi_content_length`. -/
+theorem wsgi_content_length_emitted (app : App) (s : Slots) (r : Req) (n : Nat)
+    (hcl : (wsgi app s r).fwCL = some n) (h304 : (wsgi app s r).slots.resp.code ≠ 304) :
+    ∃ line hdrs, Event.startResponse line hdrs false ∈ (wsgi app s r).events ∧
+      ("Content-Length".toList, natStr n) ∈ hdrs := by
+  obtain ⟨_, pre, hpre⟩ := wsgi_content_length app s r n hcl
+  unfold wsgi at hcl hpre h304 ⊢
+  rcases hh : handle app s r with ⟨s1, ev1, out⟩
+  rw [hh] at hcl hpre h304
+  simp only at hcl hpre h304 ⊢
+  rcases hc : cast app r.fileWrapper s1 out with ⟨s2, cr⟩
+  rw [hc] at hcl hpre h304
+  cases cr with
+  | body items closer fwCL =>
+    simp only at hcl hpre h304 ⊢
+    cases hl : headerlist s2.resp with
+    | some l =>
+      rw [hl] at hcl hpre h304
+      simp only at hcl hpre h304 ⊢
+      refine ⟨s2.resp.line, l, by simp, ?_⟩
+      have hm : ("Content-Length".toList, [HVal.good (natStr n)]) ∈ s2.resp.headers := by
+        rw [hpre]; simp
+      have := headerlist_mem s2.resp l hl _ _ hm (content_length_kept _ h304)
+      rw [recode_ascii _ (natStr_ascii n)] at this
+      exact this
+    | none =>
+      rw [hl] at hcl
+      simp only [catchAll] at hcl
+      cases hcl
+  | raised => simp only [catchAll] at hcl; cases hcl
+  | diverged => simp only [catchAll] at hcl; cases hcl
+
 /-- the status-500 line of the table has the 500 prefix the property speaks about -/
 theorem line500 : (lineOfCode 500).take 4 = "500 ".toList := by decide +kernel
 
